@@ -7,6 +7,7 @@
 From Coq Require Import String List Arith Bool ZArith.
 Import ListNotations.
 From NP Require Import Base Values Arrow Frame Proofs_Pack Proofs_Regroup.
+From NP Require Import Targets Proofs_Targets.
 
 Theorem C12_dropna_nested : forall rows how subset,
   m_dropna_nested rows how subset = Ok (spec_filter_rows (complete how subset) rows).
@@ -24,6 +25,28 @@ Theorem C12_each_row_keeps_its_complete_records : forall how subset rows i, i < 
       <-> filter (complete how subset) (recs (nth i rows None)) = []).
 Proof. intros. apply spec_filter_rows_nth. assumption. Qed.
 Print Assumptions C12_each_row_keeps_its_complete_records.
+
+(* which layer dropna works on (Targets.v mirrors _resolve_dropna_target): when it answers, every subset entry belongs to
+   the answered layer and so does on_nested; it answers whenever the arguments name one layer consistently; it refuses
+   exactly for an entry of an unknown layer, entries of two layers, an unknown on_nested, or on_nested and subset that
+   disagree *)
+Theorem C12_target_sound : forall on sub l,
+  m_dropna_target on sub = Ok l ->
+  (forall es, sub = Some es -> forall e, In e es -> e = Some l) /\
+  (forall k, on = Some (Some k) -> l = LNest k) /\
+  on <> Some None /\
+  ((on = None /\ (sub = None \/ sub = Some [])) -> l = LBase).
+Proof. exact dropna_target_sound. Qed.
+Print Assumptions C12_target_sound.
+
+Theorem C12_target_refused : forall on sub,
+  m_dropna_target on sub = Err <->
+  ( on = Some None
+    \/ (exists es, sub = Some es /\ In None es)
+    \/ (exists es a b, sub = Some es /\ In (Some a) es /\ In (Some b) es /\ a <> b)
+    \/ (exists es a k, sub = Some es /\ In (Some a) es /\ on = Some (Some k) /\ a <> LNest k) ).
+Proof. exact dropna_target_refused. Qed.
+Print Assumptions C12_target_refused.
 
 Example C12_nonvacuous :
   m_dropna_nested [Some [[VInt 1; VNull]; [VNull; VNull]; [VInt 2; VTok 5]]; None; Some [[VNull; VInt 3]]]
